@@ -66,6 +66,7 @@ func runC05(c *Ctx) {
 	c.Rule("C05-R3", "display options do not flow into the verdict", 4)
 	c.Rule("C05-R4", "CountBySeverity counts every report of the unfiltered list", 4)
 	c.Rule("C05-R5", "who may write Problem.Severity / Summary.reports; report identity includes severity", 5)
+	defer c05ReporterIO(c)
 
 	chk := p.Pkg("internal/checks")
 	if chk == nil {
@@ -685,4 +686,48 @@ func c05Counting(c *Ctx) {
 		c.Check(val != nil && root == info.Defs[val], "C05-R4", "CountBySeverity:key is the ranged report's severity", inc.Pos(), "keyed by loop variable", "counter is keyed by "+exprStr(ix.Index))
 	}
 	_ = p
+}
+
+// c05ReporterIO: a reporter error makes the command exit non-zero whatever the
+// severities are. The console reporter may read the rule file only for reports
+// anchored after the change: a report anchored before (a removed rule, a
+// deleted file) points at a file that need not exist any more.
+func c05ReporterIO(c *Ctx) {
+	p := c.P
+	fi := c.MustFunc("C05-R2", "internal/reporter.ConsoleReporter.Submit")
+	if fi == nil {
+		return
+	}
+	info := fi.Pkg.TypesInfo
+	fl := p.NewFlow(fi)
+	reads := fl.Find(func(n ast.Node) bool {
+		call, ok := n.(*ast.CallExpr)
+		if !ok {
+			return false
+		}
+		if isCallTo(info, call, "internal/reporter.readFile") {
+			return true
+		}
+		fn := Callee(info, call)
+		return fn != nil && fn.Pkg() != nil && fn.Pkg().Path() == "os" && (fn.Name() == "ReadFile" || fn.Name() == "Open")
+	})
+	for i, r := range reads {
+		ok := fl.Dominated(r.Site, r.Inner, func(a Atom) bool {
+			be, isBin := ast.Unparen(a.E).(*ast.BinaryExpr)
+			if !isBin || a.Tag != nil {
+				return false
+			}
+			k := constObj(info, be.Y)
+			if k == nil {
+				k = constObj(info, be.X)
+			}
+			if k == nil || k.Name() != "AnchorAfter" {
+				return false
+			}
+			return (be.Op == token.EQL && a.Truth) || (be.Op == token.NEQ && !a.Truth)
+		})
+		c.Check(ok, "C05-R2", "ConsoleReporter.Submit:file read #"+itoa(i+1)+" only for reports anchored after the change", r.Inner.Pos(), "guarded by Anchor == AnchorAfter",
+			"the console reporter reads the rule file for reports that are not anchored after the change: for a removed rule in a deleted file the read fails, Submit returns the error and `pint ci` exits non-zero although no problem reaches --fail-on")
+	}
+	c.Check(len(reads) >= 1, "C05-R2", "ConsoleReporter.Submit:file reads enumerated", fi.Decl.Pos(), itoa(len(reads)), "no file read found in the console reporter")
 }
